@@ -56,7 +56,7 @@ def order_snap(o):
             "price": float(o.price), "direction": o.position_direction.name}
 
 
-def run_trading(rnd, S, cfgk, intensity=1.0, script=None, analyser=False, ids=None, workaround_f19=False):
+def run_trading(rnd, S, cfgk, intensity=1.0, script=None, analyser=False, ids=None, workaround_f19=False, reseed_key=None):
     """run the real rqalpha on (S, cfgk) with the scripted random strategy; returns a Trace"""
     from rqalpha.environment import Environment
     from rqalpha.core.events import EVENT
@@ -161,6 +161,8 @@ def run_trading(rnd, S, cfgk, intensity=1.0, script=None, analyser=False, ids=No
         import rqalpha.api as api
         env = Environment.get_instance()
         tr.stats["_phase"] = phase
+        if reseed_key is not None:      # decisions are a function of (key, clock, phase) only: the strategy has no hidden state (resumable)
+            srnd.seed("%s|%s|%s" % (reseed_key, env.calendar_dt, phase))
         n_ops = srnd.choice([0, 0, 1, 1, 2, 3, 5]) if intensity >= 1 else srnd.choice([0, 0, 0, 1, 2])
         for _ in range(n_ops):
             r = srnd.random()
